@@ -34,6 +34,7 @@ import (
 	"example.com/scion-time/core/measurements"
 	"example.com/scion-time/core/timebase"
 	"example.com/scion-time/net/ntp"
+	"example.com/scion-time/net/scion"
 	"example.com/scion-time/net/udp"
 
 	"verifharness/lib"
@@ -299,7 +300,13 @@ const (
 func execRound(toks []string) string {
 	deadline := roundDeadline
 	for attempt := 0; ; attempt++ {
-		res, timedOut := execRoundOnce(toks, deadline)
+		var res string
+		var timedOut bool
+		if toks[0] == "pa.round" {
+			res, timedOut = execPatherRoundOnce(toks, deadline)
+		} else {
+			res, timedOut = execRoundOnce(toks, deadline)
+		}
 		if !timedOut && strings.HasSuffix(res, " late=1") && deadline == roundDeadline {
 			// confirm with a much longer deadline before reporting (rules out a stalled machine)
 			deadline = roundConfirm
@@ -327,6 +334,92 @@ func execRoundOnce(toks []string, deadline time.Duration) (string, bool) {
 	if err := world(); err != nil {
 		panic("world: " + err.Error())
 	}
+	return runRound(cs, succ, data, mkPaths(ps), deadline)
+}
+
+// mkPaths: fake snet.Paths for the fingerprint tokens; path j's next hop is socket j.
+func mkPaths(ps []string) []snet.Path {
+	paths := make([]snet.Path, len(ps))
+	for j, t := range ps {
+		paths[j] = spath.Path{
+			Src: localIA, Dst: remoteIA, DataplanePath: spath.Empty{},
+			NextHop: net.UDPAddrFromAddrPort(socks[j].LocalAddr().(*net.UDPAddr).AddrPort()),
+			Meta:    fpMeta(t),
+		}
+	}
+	return paths
+}
+
+// ---------------------------------------------------------------- rounds on one Pather
+
+// The Pather of the current history (pa.set): its path table is filled through the verif hook
+// (what update() stores after a daemon lookup); every pa.round asks the real Pather.Paths for
+// the paths to offer, exactly as ntpReferenceClockSCION.MeasureClockOffset does.
+var (
+	pather     *scion.Pather
+	patherToks []string
+)
+
+// sockIndex identifies an offered path by the socket behind it (= its position in pa.set's list)
+func sockIndex(p snet.Path) int64 {
+	nh := p.UnderlayNextHop()
+	for j := range socks {
+		if nh != nil && nh.Port == socks[j].LocalAddr().(*net.UDPAddr).Port {
+			return int64(j)
+		}
+	}
+	return -1
+}
+
+func pathIndices(ps []snet.Path) string {
+	ix := make([]int64, len(ps))
+	for i, p := range ps {
+		ix[i] = sockIndex(p)
+	}
+	return lib.IntList(ix)
+}
+
+func execPatherSet(toks []string) string {
+	if len(toks) != 2 {
+		return "bad-op"
+	}
+	ps := list(kv(toks, "ps"))
+	if len(ps) > maxPaths {
+		return "bad-op"
+	}
+	if err := world(); err != nil {
+		panic("world: " + err.Error())
+	}
+	patherToks = ps
+	pather = scion.VerifC15NewPather(discard, localIA, map[addr.IA][]snet.Path{remoteIA: mkPaths(ps)})
+	return fmt.Sprintf("ok n=%d", len(ps))
+}
+
+func execPatherRoundOnce(toks []string, deadline time.Duration) (string, bool) {
+	if len(toks) != 4 {
+		return "bad-op", false
+	}
+	cs, succ := list(kv(toks, "cs")), list(kv(toks, "succ"))
+	data := unhex(kv(toks, "s"))
+	if len(succ) != len(cs) || len(cs) > 62 {
+		return "bad-op", false
+	}
+	if pather == nil {
+		return "err nopather", false
+	}
+	offered := pather.Paths(remoteIA) // the real method: what a round is offered
+	off := pathIndices(offered)
+	res, timedOut := runRound(cs, succ, data, offered, deadline)
+	if timedOut || res == "bad-op" {
+		return res, timedOut
+	}
+	// what the Pather holds now = what the next round (of this or another reference clock) is offered
+	return res + " offered=" + off + " held=" + pathIndices(scion.VerifC15Held(pather, remoteIA)), false
+}
+
+// runRound: one real MeasureClockOffsetSCION call over the given offered paths.
+func runRound(cs, succ []string, data []byte, paths []snet.Path, deadline time.Duration) (string, bool) {
+	ps := paths
 	clients := make([]*client.SCIONClient, len(cs))
 	filters := make([]*fakeFilter, len(cs))
 	sm := map[int]bool{}
@@ -352,14 +445,6 @@ func execRoundOnce(toks []string, deadline time.Duration) (string, bool) {
 		}
 		client.VerifC15SetPrev(c, ref, fpString(t[3:]), t[2] == '1')
 		clients[i], filters[i] = c, f
-	}
-	paths := make([]snet.Path, len(ps))
-	for j, t := range ps {
-		paths[j] = spath.Path{
-			Src: localIA, Dst: remoteIA, DataplanePath: spath.Empty{},
-			NextHop: net.UDPAddrFromAddrPort(socks[j].LocalAddr().(*net.UDPAddr).AddrPort()),
-			Meta:    fpMeta(t),
-		}
 	}
 	mu.Lock()
 	cur.succ, cur.log = sm, nil
@@ -404,7 +489,12 @@ func execRoundOnce(toks []string, deadline time.Duration) (string, bool) {
 	resets := make([]int64, len(cs))
 	for i, f := range filters {
 		resets[i] = int64(f.resets)
-		// ResetInterleavedMode and Filter.Reset go together
+		// ResetInterleavedMode and Filter.Reset go together. (Not looked at when the round ran into
+		// its deadline: abandoned per-path goroutines may still be finishing their exchange and
+		// writing the client's prev state — nothing orders those writes before this read.)
+		if late {
+			continue
+		}
 		if ref, _, _ := client.VerifC15Prev(clients[i]); f.resets > 0 && ref != "" && probes[i] == 0 {
 			return "err reset-without-interleaved-reset", false
 		}
@@ -480,8 +570,10 @@ func exec(t []string) string {
 			}
 			return fmt.Sprintf("ok %d [%s] %d", k, strings.Join(picks, ","), sc.pos)
 		})
-	case t[0] == "mp.round":
+	case t[0] == "mp.round", t[0] == "pa.round":
 		return execRound(t)
+	case t[0] == "pa.set":
+		return execPatherSet(t)
 	}
 	return "bad-op"
 }
@@ -786,17 +878,23 @@ func round(c *lib.Ctx, cs []clientSpec, ps []string, stream []byte, succ []strin
 	}
 	op := fmt.Sprintf("mp.round cs=[%s] ps=[%s] s=%s succ=[%s]", strings.Join(ct, ","), strings.Join(ps, ","),
 		lib.Hex(stream), strings.Join(succ, ","))
-	ans := c.Do(op)
+	judge(c, []string{op}, c.Do(op), cs, ps, succ)
+}
+
+// judge evaluates the property predicate on the answer of one round (`ops` = the replay: the
+// round's op, preceded by the ops of its history for rounds on one Pather; `ps` = the
+// fingerprints the path source offers). It returns the client -> offered-position assignment.
+func judge(c *lib.Ctx, ops []string, ans string, cs []clientSpec, ps []string, succ []string) []string {
 	f := strings.Fields(ans)
 	fail := func(sig, what string) {
-		c.Fail(sig, what, []string{op}, map[string]any{"answer": ans})
+		c.Fail(sig, what, ops, map[string]any{"answer": ans})
 	}
 	if f[0] == "panic" || len(f) < 6 || strings.HasPrefix(f[1], "other") || strings.HasPrefix(f[1], "sample") {
 		c.Count("round:" + f[0] + ":" + f[1])
 		if f[0] == "panic" {
 			fail("C15:round:panic", "MeasureClockOffsetSCION panicked")
 		}
-		return
+		return nil
 	}
 	assign, reset, probes := list(kv(f, "assign")), list(kv(f, "reset")), list(kv(f, "probes"))
 	if kv(f, "late") != "0" {
@@ -818,7 +916,7 @@ func round(c *lib.Ctx, cs []clientSpec, ps []string, stream []byte, succ []strin
 		j, err := strconv.Atoi(a)
 		if err != nil || j < 0 || j >= len(ps) {
 			fail("C15:round:assign", "client probed several paths or a path that was not offered")
-			return
+			return nil
 		}
 		if seen[a] {
 			fail("C15:round:distinct", "two clients probed the same path in one round")
@@ -907,6 +1005,145 @@ func round(c *lib.Ctx, cs []clientSpec, ps []string, stream []byte, succ []strin
 		} else if o := measurements.FaultTolerantMidpoint(ms).Offset; f[1] != fmt.Sprintf("off=%d", int64(o)) {
 			fail("C15:round:ftm", fmt.Sprintf("offset is not the fault-tolerant midpoint over one value per participant (%d)", int64(o)))
 		}
+	}
+	return assign
+}
+
+// genPatherRounds: histories of consecutive rounds of ONE set of clients on ONE Pather (as a
+// SCION reference clock runs them between two daemon refreshes). The clients' state of the
+// previous exchange evolves as the rounds go: a client whose exchange over path j succeeded
+// remembers j's fingerprint (interleaved mode), a failed one starts over. Oracles, per round:
+// everything judge() checks with "offered" = the Pather's table (distinct paths, participants,
+// an interleaved client keeps its path while the Pather still offers it, FTM), plus: what the
+// round was offered is the Pather's table, and the table is unchanged by the round.
+func genPatherRounds(c *lib.Ctx) {
+	r := c.Rand
+	words := func(n int) []byte {
+		var s []byte
+		for i := 0; i < n; i++ {
+			s = append(s, r.Bytes(4)...)
+		}
+		return s
+	}
+	history := func(ps []string, cs []clientSpec, rounds int, failPct int) {
+		c.Comment("history pather")
+		setOp := fmt.Sprintf("pa.set ps=[%s]", strings.Join(ps, ","))
+		ops := []string{setOp}
+		if ans := c.Do(setOp); ans != fmt.Sprintf("ok n=%d", len(ps)) {
+			c.Fail("C15:pather:set", "the Pather could not be set up", ops, map[string]any{"answer": ans})
+			return
+		}
+		ident := make([]int64, len(ps))
+		for j := range ident {
+			ident[j] = int64(j)
+		}
+		for k := 0; k < rounds; k++ {
+			if lateRounds >= 8 {
+				return
+			}
+			succ := make([]string, len(cs))
+			for i := range succ {
+				if r.Chance(failPct) {
+					succ[i] = "x"
+				} else {
+					succ[i] = strconv.FormatInt(r.Range(-1000000, 1000000), 10)
+				}
+			}
+			ct := make([]string, len(cs))
+			for i, s := range cs {
+				ct[i] = s.tok()
+			}
+			op := fmt.Sprintf("pa.round cs=[%s] s=%s succ=[%s]", strings.Join(ct, ","), lib.Hex(words(len(ps)+4)), strings.Join(succ, ","))
+			ops = append(ops, op)
+			replay := append([]string(nil), ops...)
+			ans := c.Do(op)
+			c.Count("pather:round")
+			if k > 0 {
+				c.Count("pather:round-after-first")
+			}
+			f := strings.Fields(ans)
+			if f[0] != "panic" && len(f) >= 6 {
+				off, held := "", ""
+				for _, t := range f {
+					if strings.HasPrefix(t, "offered=") {
+						off = t[8:]
+					}
+					if strings.HasPrefix(t, "held=") {
+						held = t[5:]
+					}
+				}
+				if off != lib.IntList(ident) {
+					c.Fail("C15:pather:offered-differs", "the paths offered to a round are not the Pather's path table (paths lost / duplicated / reordered by earlier rounds)",
+						replay, map[string]any{"answer": ans, "table": lib.IntList(ident), "offered": off})
+				}
+				if held != lib.IntList(ident) {
+					c.Fail("C15:pather:table-altered", "a measurement round altered the Pather's path table (the round consumes its path list in place; Paths must hand out a copy)",
+						replay, map[string]any{"answer": ans, "table": lib.IntList(ident), "held_after": held})
+				}
+			}
+			assign := judge(c, replay, ans, cs, ps, succ)
+			if assign == nil {
+				return
+			}
+			// the clients' state after this round
+			for i := range cs {
+				if i >= len(assign) || assign[i] == "-" {
+					continue
+				}
+				j := atoi(assign[i])
+				switch {
+				case !cs[i].mode:
+				case succ[i] == "x" || j < 0 || j >= len(ps):
+					cs[i] = clientSpec{mode: true, fp: "-"}
+				default:
+					cs[i] = clientSpec{true, true, true, ps[j]}
+					c.Count("pather:client-now-interleaved")
+				}
+			}
+		}
+	}
+	fresh := func(n int, basicPct int) []clientSpec {
+		cs := make([]clientSpec, n)
+		for i := range cs {
+			cs[i] = clientSpec{mode: !r.Chance(basicPct), fp: "-"}
+		}
+		return cs
+	}
+	fps := func(n int) []string {
+		ps := make([]string, n)
+		for j := range ps {
+			ps[j] = fmt.Sprintf("f%d", j)
+		}
+		return ps
+	}
+	c.Comment("pa.round corpus: a reference clock's seven clients on one Pather")
+	history(fps(7), fresh(7, 0), 4, 0)  // as many paths as clients: every client keeps its path from round 2 on
+	history(fps(10), fresh(7, 0), 4, 0) // more paths than clients: the fill draws from the rest
+	history(fps(3), fresh(7, 0), 4, 0)  // fewer paths than clients
+	history(fps(2), fresh(2, 0), 3, 0)
+	history(fps(5), fresh(3, 0), 4, 30)
+	history([]string{"-"}, fresh(7, 0), 3, 0) // the AS-local path
+	history(nil, fresh(7, 0), 2, 0)
+	c.Comment("pa.round random histories")
+	for i := 0; i < c.Scale(120, 4000); i++ {
+		if lateRounds >= 8 {
+			c.Count("round:skipped-after-late-rounds")
+			break
+		}
+		np, nc := 1+r.Intn(10), 1+r.Intn(7)
+		switch r.Intn(5) {
+		case 0:
+			nc = 7
+		case 1:
+			np = nc
+		case 2:
+			np = nc + 1 + r.Intn(3)
+		}
+		ps := fps(np)
+		if r.Chance(15) && np > 1 { // a duplicate or an empty fingerprint among the offered paths
+			ps[r.Intn(np)] = []string{"-", ps[0]}[r.Intn(2)]
+		}
+		history(ps, fresh(nc, 15), 2+r.Intn(4), []int{0, 0, 10, 40}[r.Intn(4)])
 	}
 }
 
@@ -1023,6 +1260,7 @@ func gen(c *lib.Ctx) {
 		return
 	}
 	genRounds(c)
+	genPatherRounds(c)
 }
 
 func main() { lib.Main(exec, gen) }
